@@ -15,7 +15,14 @@ def run(ctx):
     tf = ctx.trace_path("prod")
     ctx.drive("product_run", [tf, ctx.tier, ctx.seed])
     ctx.validate("Trace_Product", "Trace_Product.cfg", tf)
+    # multi-asset underlyings and rate payoffs over exact rationals (Product2.tla)
+    ctx.design("MC_Product2", "Product2_quick.cfg", constants="static identities of bond / cap / swaption / rainbow for all rate vectors (<= 3 rates from 5 values) x 4 strikes", coverage=False)
+    t2 = ctx.trace_path("prod2")
+    ctx.drive("product2_run", [t2, ctx.tier, ctx.seed])
+    ctx.validate("Trace_Product2", "Trace_Product2.cfg", t2)
     ctx.assumptions += [
+        "multi-asset underlyings (Mean, Performances, MaximumOfPerformances, NthSpot, Indicators, Libors) and rate payoffs (Bond, Cap, Swaption, Ratchet, Rainbow, FixedCoupon): dyadic inputs, values read as reduced fractions (1e-9 relative under the log representation)",
+        "CDS payoff, LogSpot underlying: not modelled (exponentials / logarithms of the inputs)",
         "paths, strikes, barriers, thresholds are (half-)integers so that every value is an exact integer after doubling",
         "LookBack is excluded: its process() raises unconditionally in the repository",
         "under the log representation strikes/barriers at half-integers only meet spot values away from ties (exp(log(x)) rounding)",
